@@ -30,11 +30,17 @@ THE SUBSET.
               are the identity); references are erased (all values are `Copy`).
   statements  `let` (with tuple / newtype patterns, shadowing), `let mut` with `=`, `+= -= *= /= %= <<= >>= &= |= ^=`
               on local variables (re-binding; code after an `if` that assigns is duplicated into both branches), local
-              `const`, expression statements, `return`, `if` / `if … else` / `if let Some(x) = …`, `match` on
+              `const`, a plain `use path::Name;` whose `Name` is nothing of the translated files (an external trait:
+              it cannot change what a path of the body refers to; any other `use` is refused), expression
+              statements, `return`, `if` / `if … else` / `if let Some(x) = …`, `match` on
               integers (literals, `a..=b` ranges, named constants, `_`, a binding), on bools, on field-less enums and
               on `Option` (`Some(p)` / `None` / `_`); blocks, `unsafe { }` blocks.
   expressions integer literals (any radix, `_`, suffixes; unsuffixed literals typed by unification, default i32),
-              `true/false`, variables, constants, `iN::MAX/MIN`, `+ - * / % << >> & | ^ !` and unary `-`, comparisons,
+              `true/false`, variables, constants, `iN::MAX/MIN`, module-level `const NAME: [intN; n] = [e, …];` arrays
+              of integer constant expressions (written out as a list literal where used, elements checked against
+              the element type), `opt.map(|p| e)` / `opt.and_then(|p| e)` with a one-parameter closure written in
+              place and without `return` / `?` in it (read as the `match` that defines them: `Some(p) => Some(e)` resp.
+              `Some(p) => e`, `None => None`; a closure anywhere else is refused), `+ - * / % << >> & | ^ !` and unary `-`, comparisons,
               `&& || !`, `as` between integer types / from bool / from a field-less enum, `iN::from`, tuples, array
               literals and indexing of integer arrays, indexing of the tables tools/extract.py already translates
               (YEAR_TO_FLAGS, MDL_TO_OL, OL_TO_MDL, YEAR_DELTAS: read from Extracted/Tables.lean), struct literals
